@@ -194,6 +194,8 @@ class Ref:
             r = "skip"
         if not render:
             return r
+        if r == "noopinion":
+            return None
         return r + " | " + self.view()
 
     def op(self, t):
@@ -211,7 +213,7 @@ class Ref:
         if op == "ksort":
             self.store(sl(a[0]), sorted(range(int(a[1])), reverse=(a[2] == "1")))
             return "ok"
-        if op == "newp":
+        if op in ("newp", "newil"):
             self.store(sl(a[0]), [dec(T, x) for x in a[1:]])
             return "ok"
         if op == "cp":
@@ -365,6 +367,11 @@ class Ref:
         if op == "sortd":
             l.sort(reverse=True)
             return "ok"
+        if op == "sortc":
+            # counted elements: the answer (copies made, peak) is the quicksort's own - no opinion on this line
+            m = int(a[1]) % 4
+            l.sort(reverse=(m in (1, 3)))
+            return "noopinion"
         if op == "sortby":
             ks = [key(T, v) for v in l]
             if len(set(ks)) != len(ks):
@@ -395,14 +402,14 @@ class Ref:
             if i + k <= n:
                 del l[i:i + k]
             return "ok"
-        if op == "copyp":
+        if op in ("copyp", "asgil"):
             xs = [dec(T, x) for x in a[1:]]
             if self.blocked(len(xs) > c.cap, shared):
                 return "skipg"
             self.reserve(c, len(xs))
             l[:] = xs
             return "ok"
-        if op == "appp":
+        if op in ("appp", "appil"):
             xs = [dec(T, x) for x in a[1:]]
             if self.blocked(n + len(xs) > c.cap, shared):
                 return "skipg"
@@ -555,7 +562,7 @@ BOUNDARY = {"i": [3, 6, 12, 24, 48, 96, 192, 384, 511, 512, 513, 768, 1024], "s"
             "c": [3, 6, 12, 24, 48, 96, 192, 255, 256, 257, 384, 512]}
 
 
-MAYGROW = ("app", "push", "put", "ins", "appo", "inso", "insx", "rsz", "res", "apnd", "copy", "copyp", "appp", "appown")
+MAYGROW = ("app", "push", "put", "ins", "appo", "inso", "insx", "rsz", "res", "apnd", "copy", "copyp", "appp", "appown", "asgil", "appil")
 
 
 def gen_case(rng, t, cont, nops, profile, exclusive=False):
@@ -627,7 +634,10 @@ def gen_case(rng, t, cont, nops, profile, exclusive=False):
         elif w < 0.61:
             emit("clr %d" % h)
         elif w < 0.635:
-            emit(rng.choice(["sort %d", "sortd %d", "sortby %d 1", "sortby %d 0"]) % h)
+            if t == "c" and rng.random() < 0.6:
+                emit("sortc %d %d" % (h, rng.randrange(4)))     # the same four sorts, also answering with the temporaries made
+            else:
+                emit(rng.choice(["sort %d", "sortd %d", "sortby %d 1", "sortby %d 0"]) % h)
         elif w < 0.64:
             k = rng.choice([0, 1, 2, 3, rng.randrange(9), (c.cap - n + 1) if c is not None else 4])
             vs = " ".join(rval(rng, t) for _ in range(max(k, 0)))
@@ -639,6 +649,10 @@ def gen_case(rng, t, cont, nops, profile, exclusive=False):
             elif o == "remx":
                 emit("remx %d %d %d" % (h, rng.choice([0, 1, n, n + 1, rng.randrange(n + 2)]),
                                         rng.choice([2147483647, 2147483646, n + 1, n, 1, rng.randrange(n + 3)])))
+            elif rng.random() < 0.4:
+                # the initializer-list members (braced lists of 0..4 elements)
+                o2 = {"appp": "appil", "copyp": "asgil", "newp": "newil"}[o]
+                emit(("%s %d %s" % (o2, h, " ".join(vs.split()[:4]))).strip())
             else:
                 emit(("%s %d %s" % (o, h, vs)).strip())
         elif w < 0.67:
@@ -781,7 +795,7 @@ def gen(rng, tier):
 EXHAUSTIVE = {"quick": "all sequences of length <= 3 over the 9-op alphabet %s on Array<Counted>" % ALPHABET,
               "thorough": "all sequences of length <= 5 over the 9-op alphabet %s on Array<Counted> and Array<String>" % ALPHABET}
 
-GROW = ("app", "ins", "appo", "inso", "insx", "push", "put", "apnd", "appp", "kapp")
+GROW = ("app", "ins", "appo", "inso", "insx", "push", "put", "apnd", "appp", "appil", "kapp")
 MID = ("ins", "inso", "insx", "rem", "remone", "remif", "qget", "apndk", "copyk", "asgk", "asgi")
 
 
